@@ -28,6 +28,10 @@ def build_lib(features=()):
     out = os.path.join(facts.CACHE, "lib-" + key)
     rlib = os.path.join(out, "libcircular_buffer.rlib")
     if os.path.exists(rlib):
+        try:
+            os.utime(out, None)  # most recently *used*: pruning goes by this time stamp
+        except OSError:
+            pass
         return rlib, os.path.join(out, "deps")
     tgt = facts.scratch_dir("wlib")
     try:
@@ -52,8 +56,12 @@ def build_lib(features=()):
         shutil.rmtree(tgt, ignore_errors=True)
     # keep only a few libs
     libs = sorted([d for d in os.listdir(facts.CACHE) if d.startswith("lib-")], key=lambda d: os.path.getmtime(os.path.join(facts.CACHE, d)))
-    for d in libs[:-15]:
-        shutil.rmtree(os.path.join(facts.CACHE, d), ignore_errors=True)
+    import time as _time
+
+    for d in libs[:-40]:
+        # never remove what a concurrent check may still be compiling against
+        if _time.time() - os.path.getmtime(os.path.join(facts.CACHE, d)) > 1800:
+            shutil.rmtree(os.path.join(facts.CACHE, d), ignore_errors=True)
     return rlib, os.path.join(out, "deps")
 
 
